@@ -197,12 +197,36 @@ Proof.
   - intro H. destruct (IH H) as [H1 H2]. split; [right; exact H1|exact H2].
 Qed.
 
+Lemma partial_build_hm_sound sn rs vals meth first x :
+  partial_build_hm sn rs vals meth first = BOk (Some x) ->
+  first = Some x \/ (In (fst (fst x)) rs /\ build_rule (fst (fst x)) vals = BOk (snd (fst x), snd x)).
+Proof.
+  revert first. induction rs as [|r0 rs IH]; intro first; cbn [partial_build_hm].
+  - intro H. injection H as ->. left. reflexivity.
+  - destruct (suitable_for r0 vals meth).
+    + destruct (build_rule r0 vals) as [[dp0 path0]| |] eqn:Eb; cbn [bbind fst snd]; try discriminate.
+      destruct (list_eqb dp0 sn).
+      * intro H. injection H as <-. right. cbn [fst snd]. split; [left; reflexivity|exact Eb].
+      * intro H. destruct (IH _ H) as [Hf|[H1 H2]].
+        -- destruct first as [f|]; [left; exact Hf|]. injection Hf as <-. right. cbn [fst snd]. split; [left; reflexivity|exact Eb].
+        -- right. split; [right; exact H1|exact H2].
+    + intro H. destruct (IH _ H) as [Hf|[H1 H2]]; [left; exact Hf|right; split; [right; exact H1|exact H2]].
+Qed.
+
+Lemma pbuild_sound m a rs vals meth r dp path :
+  pbuild m a rs vals meth = BOk (Some (r, dp, path)) -> In r rs /\ build_rule r vals = BOk (dp, path).
+Proof.
+  unfold pbuild. destruct (m_host_matching m).
+  - intro H. destruct (partial_build_hm_sound _ _ _ _ _ _ H) as [Hf|Hx]; [discriminate|exact Hx].
+  - apply partial_build_sound.
+Qed.
+
 Lemma alias_target m a meth rule0 vals u :
   alias_redirect_url m a meth rule0 vals = BOk u -> builder_target m a (r_endpoint rule0) u.
 Proof.
   unfold alias_redirect_url, adapter_build.
-  destruct (partial_build (rules_for m (r_endpoint rule0)) vals (Some meth)) as [[[[r dp] path]|]| |] eqn:Ep; cbn [bbind]; try discriminate.
-  apply partial_build_sound in Ep. destruct Ep as [Hin Hb]. apply rules_for_in in Hin. destruct Hin as [H1 H2].
+  destruct (pbuild m a (rules_for m (r_endpoint rule0)) vals (Some meth)) as [[[[r dp] path]|]| |] eqn:Ep; cbn [bbind]; try discriminate.
+  apply pbuild_sound in Ep. destruct Ep as [Hin Hb]. apply rules_for_in in Hin. destruct Hin as [H1 H2].
   cbn [orb negb andb bbind]. intro H. injection H as <-.
   eapply BT_alias; [exact H1|exact H2|exact Hb|]. unfold alias_root, build_scheme.
   repeat first [rewrite <- app_assoc | progress cbn [app]]. reflexivity.
